@@ -405,3 +405,24 @@ NOT_APPLICABLE = [
     {"property_id": p, "reason": "check not built yet in this session (work in progress; the design in DESIGN.md section 5 applies model checking to it)"}
     for p in _ALL if p not in PROPS
 ]
+
+# Dimensions added after the first version of the checks (second mutation round, remarks of sub-agents, see DESIGN.md 12.3/12.5)
+_ADDENDA = {
+    "C01": "Added: shape mount-root(i) (route i in an application mounted at `/`), all pairs of depth-3 routes sharing their first two segments also in the quick tier, and the rule that the same routing items must not be an application in one registration order and a registration failure in another.",
+    "C02": "Added: every case runs a second time with the environment answer `peer closes after the last byte` (end-of-stream instead of Pending); opaque bodies (non-UTF-8 bytes, text whose multi-byte characters lie across the end of the buffer), a target whose query values contain raw `=`.",
+    "C03": "Added: phase 3 (long runs): every cycle of <=2 (quick) / <=3 (thorough) operations repeated 1..300 times on one Response, checked after every repetition; a 204 must not carry Transfer-Encoding.",
+    "C05": "Added: requests refused because the head exceeds the buffer (1100 / 2100 bytes), a request with only application-defined header fields; long runs: every cycle of <=2 session-keeping requests repeated 150 (quick) / 400 (thorough) times on one connection. After a request the parser refuses, `session ends` and `session goes on correctly` are both admitted. If the in-memory loop model does not reproduce the real session on fresh connections, every history up to length 3 / 4 is run against Session::manage over TCP instead (real-session-only mode).",
+    "C08": "Added: phase C (long values): 0..48 ASCII bytes followed by a 2-, 3- and 4-byte character, raw and percent-encoded, into every target of the key=value decoders.",
+    "C09": "Added: typed scalar sweep (percent-escaped integers, bools, chars, floats into {i32,bool,char,f64}), values with two sequence-like fields, a value with raw `=` and one whose escapes decode to non-UTF-8 bytes for the query iterator (lossy text demanded).",
+    "C10": "Added: a media type with parameters; the form without fields; files of one name collected wherever their parts are, empty file inputs contributing nothing (oracle tightened).",
+    "C11": "Added: the typed decoding of a jar must not depend on the order of its cookies (the reversed header is decoded too).",
+    "C12": "Added: full-precision float payloads; histories of two: after every kind of request that is not admitted a freshly issued token must verify.",
+    "C13": "Added: histories of two: after every request that is not admitted the exact credential of the first pair must be admitted.",
+    "C14": "Added: allow-headers configured with zero entries (48 policies).",
+    "C16": "Added: the nested struct of the grammar declares its fields in non-alphabetical order.",
+    "C17": "Added: two more entry points - Response::with_stream over a user type implementing sse::Data, and Response::set_stream_raw.",
+    "C18": "Added: at quiescence P is polled again only when a wake for it has arrived since its last poll began (no assumption about how howl leaves the accept loop); after the interrupt has been handled a new client must be refused (connect probe in part (b)).",
+    "C20": "Added: histories of two calls of imf_fixdate: every day right after a later instant (1 s .. 1 year later), every second of one day in descending order; hexadecimal compared modulo leading zeros.",
+}
+for _k, _t in _ADDENDA.items():
+    PROPS[_k]["level_text"] += " " + _t
